@@ -22,7 +22,7 @@ ALLOWED_AXIOMS = {"propext", "Classical.choice", "Quot.sound"}
 # theorems of Sonic/Props/Consts.lean (extracted in-body source constants = model constants) each property depends on
 CONST_THMS = {
     "C01": ["parse_consts", "scan_consts", "simd_consts"], "C02": ["parse_consts", "simd_consts"], "C03": ["parse_consts", "simd_consts"], "C04": ["number_consts"],
-    "C05": ["scan_consts", "simd_consts"], "C06": ["serialize_consts"], "C07": ["ftoa_consts", "serialize_consts"], "C08": [], "C09": ["page_consts", "serialize_consts"],
+    "C05": ["scan_consts", "simd_consts"], "C06": ["serialize_consts", "shared_state_consts"], "C07": ["ftoa_consts", "serialize_consts"], "C08": [], "C09": ["page_consts", "serialize_consts"],
     "C10": ["scan_consts", "simd_consts"], "C11": ["scan_consts", "simd_consts"], "C12": ["dom_consts"], "C13": ["dom_consts", "parse_consts", "shared_state_consts"], "C14": ["page_consts"],
     "C15": ["page_consts", "scan_consts", "parse_consts", "simd_consts"], "C16": ["pool_consts"], "C17": ["pool_consts", "shared_state_consts"], "C18": ["dom_consts"],
     "C19": ["parse_consts"], "C20": ["scan_consts", "serialize_consts", "simd_consts"],
